@@ -11,6 +11,7 @@
     [lc_region_pinned] / [lc_lon_pinned] model the pinned code and are used
     only by Findings.v. *)
 From Coq Require Import ZArith List Bool.
+From Verde Require Import Lib.Verdict.
 Import ListNotations.
 Open Scope Z_scope.
 
@@ -100,3 +101,68 @@ Definition full_globe (w e : Z) : Prop := Z.abs (e - w) = c.
 Definition in_range (x : Z) : Prop := - h <= x <= c.
 
 End Longitude.
+
+(** ** Decidable form of the property's statement, evaluated by the generated
+    case files on the *implementation's* observed output. *)
+Section Decide.
+Variable h : Z.
+Let c := 2 * h.
+
+Definition representable_b (w e : Z) : bool :=
+  existsb (fun k => let a := w + k * c in
+             ((0 <=? a) && (a + east_angle h w e <=? c)) ||
+             ((- h <=? a) && (a + east_angle h w e <=? h)))
+          [-1; 0; 1].
+
+Definition lon_ok (w e W E lon l : Z) : bool :=
+  ((l - lon) mod c =? 0) &&
+  Bool.eqb ((W <=? l) && (l <=? E))
+           ((Z.abs (e - w) =? c) || (east_angle h w lon <=? east_angle h w e)).
+
+Definition lons_convention (ls : list Z) : bool :=
+  forallb (fun l => (0 <=? l) && (l <=? c)) ls || forallb (fun l => (- h <=? l) && (l <=? h)) ls.
+
+Definition lc_holds (q w e s n : Z) (coords : option (list Z * list Z))
+    (obs : option (option (list Z * list Z) * (Z * Z * Z * Z))) : bool :=
+  if check_geo_region h q w e s n then
+    match obs with
+    | None => match coords with
+              | Some (lons, lats) => negb (check_geo_coords h q lons lats)
+              | None => false
+              end
+    | Some (oc, (W, E, So, No)) =>
+        (So =? s) && (No =? n) &&
+        (if Z.abs (e - w) =? c then (W =? 0) && (E =? c)
+         else if representable_b w e then
+           (W <=? E) && ((W - w) mod c =? 0) && ((E - e) mod c =? 0) && (E - W =? east_angle h w e)
+         else true) &&
+        match coords, oc with
+        | None, None => true
+        | Some (lons, lats), Some (lons', lats') =>
+            check_geo_coords h q lons lats &&
+            list_eqb Z.eqb lats lats' &&
+            (length lons =? length lons')%nat &&
+            (if (Z.abs (e - w) =? c) || representable_b w e then
+               forallb (fun p => lon_ok w e W E (fst p) (snd p)) (combine lons lons') &&
+               lons_convention lons'
+             else true)
+        | _, _ => false
+        end
+    end
+  else match obs with None => true | Some _ => false end.
+
+Definition out_eqb (a b : option (option (list Z * list Z) * (Z * Z * Z * Z))) : bool :=
+  option_eqb (fun x y =>
+    option_eqb (fun p r => list_eqb Z.eqb (fst p) (fst r) && list_eqb Z.eqb (snd p) (snd r)) (fst x) (fst y) &&
+    (let '(a1, a2, a3, a4) := snd x in let '(b1, b2, b3, b4) := snd y in
+     (a1 =? b1) && (a2 =? b2) && (a3 =? b3) && (a4 =? b4))) a b.
+
+Definition c17_case (q w e s n : Z) (coords : option (list Z * list Z))
+    (obs : option (option (list Z * list Z) * (Z * Z * Z * Z))) : verdict :=
+  mk_verdict (out_eqb (longitude_continuity h q w e s n coords) obs)
+             (lc_holds q w e s n coords obs).
+
+(** the pinned code, for Findings *)
+Definition c17_case_pinned_region (w e : Z) : bool :=
+  let '(_, W, E) := lc_region_pinned h w e in W <=? E.
+End Decide.
